@@ -3,6 +3,7 @@ C07 — Trained support vector machines are optimal solutions of their dual prob
 (theorems on the solver/trainer model; see checks/c07.py for the tie)
 -/
 import SharkVerif.Lemmas.Bias
+import SharkVerif.Props.C08
 namespace SharkVerif.C07
 open SharkVerif.Qp SharkVerif.Smo SharkVerif.SvmTrainer
 
@@ -415,5 +416,137 @@ theorem bias_sentinel_witness :
         List.foldl_cons, List.foldl_nil, lit0, lit05, lit1e100]
       norm_num
     rw [hb]; norm_num [s, biasWitnessSentinel]
+
+
+/-! ## The widened trainers: their problems start inside the invariant, and the ε-regression block matrix is PSD
+
+With these, everything proved about reachable states (C08 `reachable_inv`, `sum_inv`, `objective_monotone_svm`) and
+about reported states (`stopped_near_optimal_svm`, …) applies to `CSvmTrainer` with class-specific `C` / example
+weights, to `EpsilonSvmTrainer` and to `OneClassSvmTrainer`. -/
+
+theorem lit1 : (1.0 : Rat) = 1 := by norm_num
+
+/-- gradient accumulated by the `SvmProblem` constructor for a non-zero start vector -/
+theorem initWith_grad (K : Nat → Nat → Rat) (lin a0 : Nat → Rat) : ∀ m (a : Nat),
+    (List.range m).foldl (fun (gr : Nat → Rat) i =>
+      if a0 i == (0.0 : Rat) then gr else fun k => gr k - K i k * a0 i) lin a
+      = lin a - rsum (fun i => K i a * a0 i) m := by
+  intro m
+  induction m with
+  | zero => intro a; simp
+  | succ m ih =>
+    intro a
+    rw [List.range_succ, List.foldl_append, rsum_succ]
+    simp only [List.foldl_cons, List.foldl_nil]
+    split
+    · rename_i h0
+      rw [beq_iff_eq, lit0] at h0
+      rw [ih a, h0]; ring
+    · show (List.range m).foldl _ lin a - K m a * a0 m = _
+      rw [ih a]; ring
+
+/-- **the problem constructed with a non-zero start vector satisfies the invariant** provided the start vector lies in
+the box and every coefficient that sits at a bound is zero (`m_gradientEdge` is initialised with `linear`); this is the
+situation of `BoxedSVMProblem` in the one-class trainer (`alpha = 1/n` strictly inside `[0, 1/(nu n)]`, `nu < 1`). -/
+theorem initWith_inv (n : Nat) (K : Nat → Nat → Rat) (eqc sh : Bool) (lin L U a0 : Nat → Rat)
+    (hsym : ∀ x y, K x y = K y x) (hbox : ∀ k, k < n → L k ≤ a0 k ∧ a0 k ≤ U k)
+    (hedge : ∀ k, k < n → (a0 k = L k ∨ a0 k = U k) → a0 k = 0) :
+    Inv (State.initWith n K eqc sh lin L U a0) := by
+  refine { sym := hsym, act_le := Nat.le_refl _, noshrink := fun _ => rfl, perm_lt := fun k hk => hk,
+           perm_inj := fun a b _ _ e => e, diag := fun k _ => rfl, box := hbox, flo := ?_, fup := ?_,
+           grad := ?_, edge := ?_, shrunk := ?_ }
+  · intro k _; simp only [State.initWith, beq_iff_eq]
+  · intro k _; simp only [State.initWith, beq_iff_eq]
+  · intro a _
+    show (List.range n).foldl _ lin a = lin a - Kalpha (State.initWith n K eqc sh lin L U a0) a
+    rw [initWith_grad]
+    simp only [Kalpha, State.initWith]
+    congr 1; apply rsum_congr; intro i _; rw [hsym]
+  · intro _ a _
+    show lin a = lin a - KalphaEdge (State.initWith n K eqc sh lin L U a0) a
+    have : KalphaEdge (State.initWith n K eqc sh lin L U a0) a = 0 := by
+      have e : KalphaEdge (State.initWith n K eqc sh lin L U a0) a = rsum (fun _ => 0) n := by
+        unfold KalphaEdge
+        apply rsum_congr; intro b hb
+        split
+        · rename_i hbd
+          have hz : a0 b = 0 := hedge b hb hbd
+          show K a b * a0 b = 0
+          rw [hz, mul_zero]
+        · rfl
+      rw [e, rsum_const_zero]
+    rw [this, sub_zero]
+  · intro k hk1 hk2; exact absurd hk2 (Nat.not_lt.mpr hk1)
+
+/-- the C-SVM problem with class-specific `C` and per-example weights starts in a state satisfying the invariant -/
+theorem csvmInit2_inv (n : Nat) (K : Nat → Nat → Rat) (y : Nat → Bool) (Cn Cp : Rat) (w : Nat → Rat) (bias sh : Bool)
+    (hsym : ∀ x y, K x y = K y x) (hCn : 0 ≤ Cn) (hCp : 0 ≤ Cp) (hw : ∀ k, k < n → 0 ≤ w k) :
+    Inv (csvmInit2 n K y Cn Cp w bias sh) := by
+  apply C08.init_inv _ _ _ _ _ _ _ hsym
+  intro k hk
+  have h1 := mul_nonneg hCn (hw k hk)
+  have h2 := mul_nonneg hCp (hw k hk)
+  cases y k <;> simp only [lit0, Bool.false_eq_true, if_false, if_true] <;> constructor <;> linarith
+
+/-- the ε-regression problem (2n variables over the block matrix) starts in a state satisfying the invariant -/
+theorem epsInit_inv (n : Nat) (K : Nat → Nat → Rat) (y : Nat → Rat) (C tube : Rat) (sh : Bool)
+    (hsym : ∀ x y, K x y = K y x) (hC : 0 ≤ C) : Inv (epsInit n K y C tube sh) := by
+  apply C08.init_inv _ _ _ _ _ _ _ (fun a b => hsym _ _)
+  intro k _
+  split <;> simp only [lit0] <;> constructor <;> linarith
+
+/-- the one-class problem (`alpha = 1/n`, box `[0, 1/(nu n)]`, `0 < nu < 1`) starts in a state satisfying the invariant
+with coefficient sum 1 -/
+theorem oneClassInit_inv (n : Nat) (K : Nat → Nat → Rat) (nu : Rat) (sh : Bool)
+    (hsym : ∀ x y, K x y = K y x) (hn : 0 < n) (hnu0 : 0 < nu) (hnu1 : nu < 1) :
+    Inv (oneClassInit n K nu (n : Rat) sh) ∧ alphaSum (oneClassInit n K nu (n : Rat) sh) = 1 := by
+  have hnq : (0 : Rat) < (n : Rat) := by exact_mod_cast hn
+  have hlt : (1 : Rat) / (n : Rat) < 1 / (nu * (n : Rat)) := by
+    rw [div_lt_div_iff₀ hnq (mul_pos hnu0 hnq)]
+    nlinarith
+  have hpos : (0 : Rat) < 1 / (n : Rat) := div_pos one_pos hnq
+  constructor
+  · unfold oneClassInit
+    apply initWith_inv _ _ _ _ _ _ _ _ hsym
+    · intro k _; simp only [lit0, lit1]; constructor <;> linarith
+    · intro k _ hb; simp only [lit0, lit1] at hb ⊢
+      rcases hb with hb | hb <;> linarith
+  · simp only [alphaSum, oneClassInit, State.initWith, lit1]
+    have : ∀ m : Nat, rsum (fun _ => (1 : Rat) / (n : Rat)) m = (m : Rat) / (n : Rat) := by
+      intro m
+      induction m with
+      | zero => simp
+      | succ m ih => rw [rsum_succ, ih]; push_cast; ring
+    rw [this n]; exact div_self (ne_of_gt hnq)
+
+/-- `Σ_{a<2n} f a` splits into the two halves -/
+theorem rsum_two_mul (f : Nat → Rat) (n : Nat) : rsum f (2 * n) = rsum f n + rsum (fun k => f (n + k)) n := by
+  have h : ∀ m, rsum f (n + m) = rsum f n + rsum (fun k => f (n + k)) m := by
+    intro m
+    induction m with
+    | zero => simp
+    | succ m ih => rw [← Nat.add_assoc, rsum_succ, ih, rsum_succ]; ring
+  rw [two_mul]; exact h n
+
+/-- the 2×2 block matrix `[[Q,Q],[Q,Q]]` of the ε-regression dual is PSD when `Q` is -/
+theorem psd_block {n : Nat} {Q : Nat → Nat → Rat} (h : PSD n Q) : PSD (2 * n) (fun a b => Q (a % n) (b % n)) := by
+  intro v
+  have key : bil (2 * n) (fun a b => Q (a % n) (b % n)) v v
+      = bil n Q (fun k => v k + v (n + k)) (fun k => v k + v (n + k)) := by
+    unfold bil
+    have inner : ∀ a, rsum (fun b => Q (a % n) (b % n) * v b) (2 * n)
+        = rsum (fun l => Q (a % n) l * (v l + v (n + l))) n := by
+      intro a
+      rw [rsum_two_mul, ← rsum_add]
+      apply rsum_congr; intro l hl
+      rw [Nat.add_mod_left, Nat.mod_eq_of_lt hl]; ring
+    rw [rsum_two_mul, ← rsum_add]
+    apply rsum_congr; intro k hk
+    rw [inner k, inner (n + k), Nat.add_mod_left, Nat.mod_eq_of_lt hk]; ring
+  rw [key]; exact h _
+
+
+example : ∃ (n : Nat) (K : Nat → Nat → Rat) (nu : Rat), (∀ x y, K x y = K y x) ∧ 0 < n ∧ 0 < nu ∧ nu < 1 :=
+  ⟨2, fun _ _ => 1, 1 / 2, fun _ _ => rfl, by decide, by norm_num, by norm_num⟩
 
 end SharkVerif.C07
